@@ -24,6 +24,13 @@ def coq_str(s):
     return '"' + "".join(out) + '"'
 
 
+def blocking(chk):
+    """a failure that is not a listed known finding ends the search (known findings are reported once and the search goes on)"""
+    from common import load_known_findings
+    known = {k for k, _ in load_known_findings('C03')}
+    return any(f.key not in known for f in chk.failures)
+
+
 # ------------------------------------------------------------------ measuring a returned groove
 def measure(g, kw):
     """list of (key, text) problems of a returned groove; kw = the requested values"""
@@ -53,16 +60,22 @@ def measure(g, kw):
     # the polyline at +-usable_width/2 : between the face corner and the sagitta of the r1 arc
     yuw = float(np.interp(g.usable_width / 2, cp[:, 0], cp[:, 1]))
     a1 = g.flank_angle + g.pad_angle
-    sag = g.r1 * (1 / max(math.cos(a1 / 2), 1e-9) - 1) if a1 < math.pi else float('inf')
+    sag = g.r1 * abs(math.tan(a1 / 2)) if abs(math.cos(a1 / 2)) > 1e-9 else float('inf')      # tangent length of the corner rounding
     if yuw < -tol or yuw > sag * 1.05 + 1e-3 * size:
-        P.append(('face-corner', f"at z = usable_width / 2 the contour is at y = {yuw:.6g} (the r1 arc allows at most {sag:.6g})"))
+        P.append(('face-corner', f"at z = usable_width / 2 the contour is at y = {yuw:.6g} (the corner rounding reaches at most {sag:.6g} from the corner)"))
     # deepest point inside the usable width = depth
     zs = np.linspace(-g.usable_width / 2, g.usable_width / 2, 2001)
     d = np.asarray(g.local_depth(zs), dtype=float)
     inside = cp[np.abs(cp[:, 0]) <= g.usable_width / 2 + tol]
     deepest = max(float(np.max(d)), float(np.max(inside[:, 1])) if len(inside) else -1e300)
-    if abs(deepest - g.depth) > 1e-5 * size:
-        P.append(('depth', f"deepest point inside the usable width is {deepest:.9g}, depth is {g.depth:.9g}"))
+    if g.depth > 0 and abs(deepest - g.depth) > 1e-5 * size:      # (a flat groove has no requested depth; its rounded face corner is its only relief)
+        zmax = abs(float(zs[int(np.argmax(d))]))
+        if deepest > g.depth and zmax >= g.z3 - tol and g.pad_angle > 0:
+            # the rounding r1 between flank and a rising (pad_angle > 0) face lies inside the usable width and above the groove bottom
+            P.append(('corner-rounding-above-depth', f"with pad angle {math.degrees(g.pad_angle):.0f} degrees the face-corner rounding r1 = {g.r1:.6g} rises to "
+                      f"{deepest:.6g} inside the usable width, above the requested depth {g.depth:.6g}"))
+        else:
+            P.append(('depth', f"deepest point inside the usable width is {deepest:.9g}, depth is {g.depth:.9g}"))
     # requested values are reproduced
     for k, v in kw.items():
         if not isinstance(v, (int, float)) or not hasattr(g, k):
@@ -91,8 +104,9 @@ def judge(chk, name, kw, label, must_build=False, must_raise=False):
         chk.x_stats['streams'][label]['rejected'] += 1
         if must_build:
             chk.fail('rejects-valid', f"{name}{kw} ({label}) is rejected: {type(e).__name__}: {e}", data)
-        elif not isinstance(e, (ValueError, TypeError, RuntimeError, ArithmeticError)):
-            chk.fail('wrong-exception', f"{name}{kw} ({label}) fails with {type(e).__name__}: {e} instead of a documented error", data)
+        else:       # the property asks for an exception, not for a particular class
+            chk.x_stats.setdefault('exception_types', {}).setdefault(type(e).__name__, 0)
+            chk.x_stats['exception_types'][type(e).__name__] += 1
         return None
     chk.x_stats['streams'][label]['returned'] += 1
     if must_raise:
@@ -101,6 +115,8 @@ def judge(chk, name, kw, label, must_build=False, must_raise=False):
     probs = measure(g, kw)
     if probs:
         key, text = probs[0]
+        if any(f.key == key for f in chk.failures):
+            return g
         chk.fail(key, f"{name}{kw} ({label}) is returned with a malformed contour: {text}", data)
     return g
 
@@ -117,7 +133,7 @@ def streams(chk, rng):
     for name, kw in CATALOGUE:
         for pad in pads:
             kw2 = dict(kw) if pad is None else dict(kw, pad_angle=pad)
-            if chk.failures:
+            if blocking(chk):
                 return built
             g = judge(chk, name, kw2, 'catalogue', must_build=(pad is None))
             if g is not None:
@@ -135,7 +151,7 @@ def streams(chk, rng):
         rng.shuffle(todo)
         todo = todo[:700]
     for name, kw2 in todo:
-        if chk.failures:
+        if blocking(chk):
             return built
         judge(chk, name, kw2, 'perturbed')
     # two parameters at once (thorough)
@@ -148,7 +164,7 @@ def streams(chk, rng):
                     kw2[k] = kw[k] * math.exp(rng.uniform(-2.5, 2.5))
                 elif k in ANGLE_KEYS:
                     kw2[k] = rng.uniform(0, 130)
-            if chk.failures:
+            if blocking(chk):
                 return built
             judge(chk, name, kw2, 'perturbed')
     # negative and non-finite values must be rejected
@@ -156,9 +172,9 @@ def streams(chk, rng):
         for k in kw:
             if k not in LENGTH_KEYS and k not in ANGLE_KEYS:
                 continue
-            if chk.failures:
+            if blocking(chk):
                 return built
-            if k != 'pad_angle':
+            if k not in ('pad_angle', 'rib_angle'):
                 judge(chk, name, dict(kw, **{k: -abs(kw[k]) if kw[k] else -1.0}), 'negative', must_raise=True)
             for bad in (float('nan'), float('inf')):
                 judge(chk, name, dict(kw, **{k: bad}), 'non-finite', must_raise=True)
@@ -175,9 +191,11 @@ def streams(chk, rng):
         for k in kw:
             if k in optional or k in required:
                 kw2 = {a: b for a, b in kw.items() if a != k}
-                if chk.failures:
+                if blocking(chk):
                     return built
-                judge(chk, name, kw2, 'too-few', must_raise=True)
+                # without any flank specification the flanked round/oval classes fall back to a tangent (zero-length) flank: a
+                # determinate, realisable groove - it only has to be well-formed
+                judge(chk, name, kw2, 'too-few', must_raise=not (k.startswith('flank_') and name in ('FalseRoundGroove', 'Oval3RadiiFlankedGroove')))
         for k in optional:
             if k in kw or not hasattr(g, k):
                 continue
@@ -185,31 +203,30 @@ def streams(chk, rng):
             if not isinstance(v, (int, float, np.floating)) or not math.isfinite(v):
                 continue
             v = math.degrees(v) if k in ANGLE_KEYS else float(v)
-            if chk.failures:
+            if blocking(chk):
                 return built
             judge(chk, name, dict(kw, **{k: v}), 'too-many', must_raise=True)
-    # the generic class: exactly three of usable_width, ground_width, flank_angle, depth
-    from pyroll.core import GenericElongationGroove
-    full = dict(usable_width=40.0, ground_width=20.0, flank_angle=math.atan(2.0), depth=20.0)
-    for mask in range(16):
-        for dz in (False, True):
+    # the generic class: exactly three of usable_width, ground_width, flank_angle, depth (values read back from real grooves)
+    from pyroll.core import GenericElongationGroove, BoxGroove, FlatGroove
+    for proto, dz in ((BoxGroove(depth=52, r1=15, r2=18, usable_width=185.29, ground_width=157.62), False), (FlatGroove(usable_width=100), True)):
+        full = dict(usable_width=proto.usable_width, ground_width=proto.ground_width, flank_angle=proto.flank_angle, depth=proto.depth)
+        common = dict(r1=proto.r1, r2=proto.r2, even_ground_width=proto.even_ground_width)
+        for mask in range(16):
             kw = {k: v for i, (k, v) in enumerate(full.items()) if mask >> i & 1}
-            if dz:
-                if 'depth' not in kw:
-                    continue
-                kw['depth'] = 0.0
-                if 'usable_width' in kw and 'ground_width' in kw:
-                    kw['ground_width'] = kw['usable_width']
             chk.cov['evaluations'] += 1
             try:
-                GenericElongationGroove(r1=1.0, r2=1.0, **kw)
+                GenericElongationGroove(**common, **kw)
                 ok = True
-            except (TypeError, ValueError):
+            except Exception:      # noqa
                 ok = False
             S['generic-arity']['returned' if ok else 'rejected'] += 1
-            if ok != (len(kw) == 3):
-                chk.fail('generic-arity', f"GenericElongationGroove(r1=1, r2=1, {kw}) is {'accepted' if ok else 'rejected'} with {len(kw)} of the four "
-                         "defining values", {'kwargs': kw})
+            # with depth 0 the flank angle is immaterial: (usable_width | ground_width, depth) + flank_angle is the only admissible triple shape
+            expect = len(kw) == 3
+            if dz and len(kw) == 3 and 'flank_angle' not in kw:
+                continue        # flat: usable_width = ground_width, depth = 0 leave the flank angle undetermined (0 / 0)
+            if ok != expect:
+                chk.fail('generic-arity', f"GenericElongationGroove({common}, {kw}) is {'accepted' if ok else 'rejected'} with {len(kw)} of the four "
+                         "defining values", {'kwargs': kw, 'depth_zero': dz})
                 return built
     return built
 
